@@ -107,6 +107,7 @@ UNIT = {
      "requires": ["old(self).inv()", "old(self).sum() + cost <= u64::MAX"],
      "ensures": ["final(self).inv()", "final(self).tracked(key)",
                  "!has_key(old(self).protected.view(), key) ==> final(self).cost(key) == cost",
+                 "final(self).sum() <= old(self).sum() + cost",
                  "forall|j: K| j != key ==> final(self).tracked(j) == old(self).tracked(j) && final(self).cost(j) == old(self).cost(j)"],
      "splices": [{"before": "if !self.protected.contains(&key) && !self.probationary.contains(&key) {", "insert": [
        "proof {",
@@ -121,7 +122,8 @@ UNIT = {
      "ensures": ["final(self).inv()",
                  "forall|j: K| final(self).tracked(j) == old(self).tracked(j)",
                  "forall|j: K| j != *key && old(self).tracked(j) ==> final(self).cost(j) == old(self).cost(j)",
-                 "old(self).tracked(*key) ==> final(self).cost(*key) == cost"],
+                 "old(self).tracked(*key) ==> final(self).cost(*key) == cost",
+                 "final(self).sum() <= old(self).sum() + cost"],
      "splices": [
        {"before": "if self.protected.contains(key) {", "insert": [
          "proof {",
